@@ -96,7 +96,7 @@ RULE = ("case = small valid base configuration plus 0-3 'extreme' options drawn 
         "maxIterations 0/1, zero smoothing steps, 16-33 threads with reduction factors down to 0.05, maxLevels 0/1/2/9, "
         "non-coarsenable and smallest two-level grids, R0<=0, R0>=Rmax, anisotropic refinement with the radius inside/outside "
         "[R0,Rmax], paraview with/without exact solution, grid files missing / written, non-numeric and unknown options, unsupported "
-        "geometry/problem/profile triples; signature = (outcome class, set of extreme options); every case counts as non-trivial "
+        "geometry/problem/profile triples; 20% of the API cases run on an object that has already set up and solved with another inner radius; after a stop by tolerance the reported errors are recomputed from solution(); signature = (outcome class, set of extreme options); every case counts as non-trivial "
         "(it reached a documented rejection or solve())")
 ASSUMPTIONS = ["a rejection is any std::exception escaping the API call, or exit status 1 with a usage/error message on the command line",
                "uninitialised-read detection: -ftrivial-auto-var-init=zero vs =pattern differential plus valgrind memcheck on a rotating subset"]
